@@ -67,8 +67,8 @@ _DEPTH_RE = re.compile(r"The depth of the complete state graph search is (\d+)")
 
 
 def tlc_cmd(module, cfg, workers=None, xmx="6g", simulate=None, depth=None, seed=None, metadir=None,
-            deadlock=True, coverage=False, extra=None, dfs_queue=False):
-    cmd = ["java", "-XX:+UseParallelGC", "-Xmx" + xmx]
+            deadlock=True, coverage=False, extra=None, dfs_queue=False, xss="32m"):
+    cmd = ["java", "-XX:+UseParallelGC", "-Xmx" + xmx, "-Xss" + xss]
     if dfs_queue:
         cmd.append("-Dtlc2.tool.queue.IStateQueue=StateDeque")
     cmd += ["-cp", JAR, "tlc2.TLC", "-workers", str(workers or NCPU), "-metadir", metadir,
@@ -178,12 +178,12 @@ class Ctx:
 
     # ---- A: spec -> code replay.  TLC prints CASE lines, the harness replays them.
     def replay(self, module, cfg, harness_bin, harness_args=(), tag=None, timeout=1500, workers=None, xmx="8g",
-               simulate=None, depth=None, env=None, tlc_extra=None):
+               simulate=None, depth=None, env=None, tlc_extra=None, xss="32m"):
         tag = tag or os.path.splitext(os.path.basename(cfg))[0]
         out = self.path("sum-%s.json" % tag)
         cmd = tlc_cmd(os.path.join(TLA, module), os.path.join(TLA, cfg), workers=workers, xmx=xmx,
                       simulate=simulate, depth=depth, seed=self.seed if simulate else None,
-                      metadir=self._meta(tag), extra=tlc_extra)
+                      metadir=self._meta(tag), extra=tlc_extra, xss=xss)
         e = dict(os.environ)
         if env:
             e.update(env)
@@ -366,8 +366,9 @@ class Ctx:
         ev = {"property_id": self.pid, "tier": self.tier, "seed": self.seed, "level": self.level, "coverage": cov,
               "assumptions": self.assumptions, "wall_s": round(time.time() - self.t0, 2),
               "violations": len(seen)}
-        os.makedirs(os.path.join(VERIF, "evidence"), exist_ok=True)
-        with open(os.path.join(VERIF, "evidence", self.pid + ".json"), "w") as f:
+        evdir = os.environ.get("VERIF_EVIDENCE_DIR", os.path.join(VERIF, "evidence"))
+        os.makedirs(evdir, exist_ok=True)
+        with open(os.path.join(evdir, self.pid + ".json"), "w") as f:
             json.dump(ev, f, ensure_ascii=False, indent=1)
         shutil.rmtree(self.work, ignore_errors=True)
         return 1 if unknown else 0
